@@ -88,7 +88,10 @@ Quiesce == /\ Is("quiesce") /\ \A t \in DOMAIN inflight : inflight[t] = 0
 Probe == /\ Is("probe")
          /\ started' = started + 1
          /\ IF E.inv
-            THEN /\ E.i = Len(invs) + 1
+            THEN \* an unbounded cache evicts nothing: what a completed call stored (and nobody cleared or
+                 \* discarded) is still there, whatever failed or was cancelled around it
+                 /\ Cfg.maxsize = -1 => valid[E.k] = {}
+                 /\ E.i = Len(invs) + 1
                  /\ invs' = Append(invs, [k |-> E.k, ok |-> TRUE])
                  /\ invoked' = invoked + 1
                  /\ valid' = [valid EXCEPT ![E.k] = @ \cup {E.i}]
